@@ -373,6 +373,27 @@ pub fn regs(size: usize, out: &mut Out) {
             }
         }
     }
+    // (d) templates that end (or begin a segment) with white space or control bytes, named by errors through a different
+    // spelling: the payload must be carried, and rendered, byte for byte
+    if out.mine() {
+        for end in [" ", "\t", " \t ", "\u{a0}", "\n ", "\r", "\u{b}", "\u{c}", "\u{2003}", "  "] {
+            for base in ["/a", "/a/{x}/b", "/{x:alpha}/a", "/a(/b)"] {
+                let live = format!("{base}{end}");
+                let respelled = format!("/\\{}", &live[1..]);
+                out.reset();
+                out.new_router(0, KEYS);
+                out.insert(0, &live, 1);
+                out.insert(0, &respelled, 2);
+                out.delete(0, &respelled);
+                out.insert(0, &format!("/q{end}"), 3);
+                out.insert(0, &format!("(/\\q{end})(/\\{})", &live[1..]), 4);
+                out.search(0, &live);
+                out.display(0);
+                out.delete(0, &live);
+                out.delete(0, &live);
+            }
+        }
+    }
 }
 
 /// Sibling competition (C06, C03, C05, C18): two templates whose first parameter is of the same kind but differently
